@@ -508,6 +508,10 @@ def align_variable_names_with_convention(
 
     transaction = 0
     for substitute, nodes in substitute_node_renamings.items():
+        # Different names must not get the same substitute, they would become one variable.
+        if len({node.id if isinstance(node, ast.Name) else node.name for node in nodes}) > 1:
+            continue
+
         replacements = []
         for node in nodes:
             if isinstance(node, ast.Name):
